@@ -1,6 +1,6 @@
 """C07 configuration for /verif/check."""
 PROP = dict(
-        module='kernel', pkg='mm/vmm', pkgname='vmm', harness=['vmm/c07_test.go'],
+        module='kernel', pkg='mm/vmm', pkgname='vmm', harness=['vmm/c07_test.go', 'vmm/c07_facts_test.go'],
         n=dict(quick=400, thorough=20000),
     extra_runs=[dict(module='kernel', pkg='mm/vmm', pkgname='vmm', harness=['vmm/swmmu_test.go', 'vmm/c04_test.go', 'vmm/c07setup_test.go'],
                      test='TestVerifC07Setup', n=dict(quick=60, thorough=2000)),
